@@ -818,7 +818,8 @@ inline CellP make_skc(SKCWorld &S, size_t n, const std::vector<size_t> &pi, int 
 		}
 		out.push_back(pub_elem(*cp, "com.h", com->h));
 		PubIn a; a.name = "com.p", a.target = com->p, a.tag = cp->T(K_EXACT, "com.p"); out.push_back(a);
-		PubIn b; b.name = "com.q", b.target = com->q, b.tag = cp->T(K_EXACT, "com.q"); out.push_back(b);
+		// com.q is not mutated: the SKC verifiers assert() that the challenge e is invertible modulo q, so a caller who
+		// passes a composite q makes the library abort; CheckGroup() is the documented precondition (C06's subject)
 	};
 	return c;
 }
